@@ -9,7 +9,7 @@ KNOWN_CLASS = {
             "not the inner rule: `track` counts attempts (curr_attempts - prev_attempts == 1), not distinct rules. Grammar r0 = { r1 ~ \"x\" | s }, "
             "s = _{ r1 ~ \"y\" }, r1 = { \"q\" } on `z`: pest reports `expected r0`; read literally (\"unless exactly one such rule was tried\": only r1 was tried "
             "inside r0 at 0) the report would be `expected r1`. Coq: C08_report_refuted; outside the decidable KnownClass the literal reading is proved "
-            "(C08_failure_reports), and the counted reading of the comment in track() is proved for every run (C08_report_counted).",
+            "(C08_outside_known_class), and the counted reading of the comment in track() is proved for every run (C08_failure_reports).",
 }
 
 META = {
@@ -175,9 +175,9 @@ def run(tier, seed, replay=None):
     shards = max(4, min(NPROC, 16))
     if tier == "quick":
         cmds += ["small %d %d" % (k, shards) for k in range(shards)]
-        cmds += ["glike 12000 %d" % (seed * 1000 + i) for i in range(shards)]
-        cmds += ["vm 2500 %d" % (seed * 1000 + 100 + i) for i in range(shards)]
-        cmds += ["random 4000 %d 6" % (seed * 1000 + 200 + i) for i in range(shards)]
+        cmds += ["glike 30000 %d" % (seed * 1000 + i) for i in range(shards)]
+        cmds += ["vm 4000 %d" % (seed * 1000 + 100 + i) for i in range(shards)]
+        cmds += ["random 2500 %d 6" % (seed * 1000 + 200 + i) for i in range(shards)]
     else:
         cmds += ["small %d %d" % (k, shards) for k in range(shards)]
         cmds += ["glike 250000 %d" % (seed * 1000 + i) for i in range(2 * shards)]
